@@ -88,6 +88,10 @@ def w_parse(case):
             os.makedirs(os.path.dirname(p), exist_ok=True)
             with open(p, "w", newline="") as f:
                 f.write(text)
+        for link, target in (case.get("links") or {}).items():
+            lp = os.path.join(d, link)
+            os.makedirs(os.path.dirname(lp), exist_ok=True)
+            os.symlink(target, lp)
         if case.get("primer"):
             # an unrelated schema parsed first in the same process: nothing it declared or resolved may leak
             try:
@@ -615,9 +619,10 @@ def as_read(text):
 
 
 def model_cases(files_list):
+    # (a case whose files sit behind symbolic links carries the logical view the importing files see: `model_files`)
     return [{"op": "parse", "files": [[rel.split("/"), text if fl.get("from_string") and rel == fl["root"] else as_read(text)]
-                                      for rel, text in fl["files"].items()],
-             "root": fl["root"].split("/")} for fl in files_list]
+                                      for rel, text in fl.get("model_files", fl["files"]).items()],
+             "root": fl.get("model_root", fl["root"]).split("/")} for fl in files_list]
 
 
 def check_rendering(rep, outs, bases):
@@ -1056,7 +1061,23 @@ def run_c20(rep, rng, tier):
             if not some:
                 single["main.fcp"] = single["main.fcp"].replace("\n", eol)
         rep.hist("line_endings", {None: "LF", "\r\n": "CR LF", "\r": "CR"}[eol])
-        jobs.append({"files": files, "root": "main.fcp"})
+        x = None
+        if inject is None and mods:
+            # a module directory (or module file) that is a symbolic link into another tree: `mod x.y;` is resolved relative
+            # to the importing file, wherever the directory entry leads
+            # (a linked *file* that itself imports modules is left out: whether its imports are looked up next to the link or
+            # next to the file it points to is not something the property fixes)
+            tops = sorted({rel.split("/")[0] for rel in mods if "/" in rel or "mod " not in files[rel]})
+            if not tops:
+                tops = [None]
+            x = rng.choice(tops)
+        if inject is None and mods and x is not None and rng.random() < 0.15:
+            phys = {("shared/" if (rel == x or rel.startswith(x + "/")) else "proj/") + rel: t for rel, t in files.items()}
+            jobs.append({"files": phys, "root": "proj/main.fcp", "links": {"proj/" + x: "../shared/" + x},
+                         "model_files": files, "model_root": "main.fcp"})
+            rep.hist("symlinked_modules", "directory" if "/" in [r for r in mods if r.split("/")[0] == x][0] else "file")
+        else:
+            jobs.append({"files": files, "root": "main.fcp"})
         jobs.append({"files": single, "root": "main.fcp"})
         meta.append((inject, victim, len(mods)))
     ires = run_cases("harness.frontend", "w_parse", with_workroot(jobs, random.Random(len(jobs)), WORKROOT), timeout_s=60)
